@@ -205,6 +205,91 @@ def _half():
     return S(Fraction(1, 2))
 
 
+def two_site_vec(rho, dl, dr):
+    """rho[(al ar),(bl br)] -> v[((al bl),(ar br))]: the ordering of kron(site_l Liouville, site_r Liouville)"""
+    out = np.empty(dl * dl * dr * dr, dtype=rho.dtype)
+    for al in range(dl):
+        for bl in range(dl):
+            for ar in range(dr):
+                for br in range(dr):
+                    out[(al * dl + bl) * dr * dr + ar * dr + br] = rho[al * dr + ar, bl * dr + br]
+    return out
+
+
+def _dag(A):
+    return np.array([[_conj(A[j, i]) for j in range(A.shape[0])] for i in range(A.shape[1])], dtype=A.dtype)
+
+
+class H3c(Case):
+    """SystemChain: the site and nearest-neighbour Liouvillians equal the documented generators
+    (hence annihilate the trace and preserve Hermiticity); get_nn_full_liouvillians splits the
+    site terms with the documented weights"""
+    functions = ("SystemChain.add_site_hamiltonian", "SystemChain.add_site_dissipation", "SystemChain.add_nn_hamiltonian",
+                 "SystemChain.add_nn_dissipation", "SystemChain.get_nn_full_liouvillians", "operators.cross_*")
+
+    def __init__(self, term):
+        self.term = term
+        self.id = "H3c/chain_%s" % term
+        self.bounds = {"d": 2, "sites": 2 if term != "full3" else 3, "term": term}
+        self.timeout_s = 300
+
+    def run(self, inp):
+        d = 2
+        I1 = 1j if inp.mode == "real" else _i()
+        half = 0.5 if inp.mode == "real" else _half()
+        if self.term == "full3":
+            ch = oqupy.SystemChain([d, d, d])
+            Ls = [inp.arr("L%d" % k, (d * d, d * d)) for k in range(3)]
+            Ns = [inp.arr("N%d" % k, (d ** 4, d ** 4)) for k in range(2)]
+            for k in range(3):
+                ch.add_site_liouvillian(k, Ls[k])
+            for k in range(2):
+                ch.add_nn_liouvillian(k, Ns[k])
+            full = ch.get_nn_full_liouvillians()
+            idm = np.identity(d * d)
+            exp0 = np.kron(Ls[0], idm) + np.kron(idm, Ls[1]) * half + Ns[0]
+            exp1 = np.kron(Ls[1], idm) * half + np.kron(idm, Ls[2]) + Ns[1]
+            return [Ob.holds("two bonds", len(full) == 2), Ob.eq("bond 0: site terms weighted 1 / 0.5", full[0], exp0),
+                    Ob.eq("bond 1: site terms weighted 0.5 / 1", full[1], exp1)]
+        ch = oqupy.SystemChain([d, d])
+        obs = []
+        if self.term == "site":
+            H = herm_state(inp, "H", d)
+            A = inp.arr("A", (d, d), cplx=True)
+            g = inp.real("g", lo=0)
+            ch.add_site_hamiltonian(1, H)
+            ch.add_site_dissipation(1, A, g)
+            rho = inp.arr("r", (d, d), cplx=True)
+            Ad = _dag(A)
+            exp = (H @ rho - rho @ H) * (-I1) + g * (A @ rho @ Ad - (Ad @ A @ rho + rho @ Ad @ A) * half)
+            obs.append(Ob.eq("site generator", ch.site_liouvillians[1].dot(rho.reshape(d * d)), exp.reshape(d * d)))
+            obs.append(Ob.eq("other site untouched", ch.site_liouvillians[0], np.zeros((d * d, d * d)) if inp.mode == "real" else inp.const(np.zeros((d * d, d * d)))))
+            return obs
+        rho = inp.arr("r", (d * d, d * d), cplx=True)
+        if self.term == "nn_ham":
+            Hl = herm_state(inp, "Hl", d)
+            Hr = herm_state(inp, "Hr", d)
+            ch.add_nn_hamiltonian(0, Hl, Hr)
+            Hh = np.kron(Hl, Hr)
+            exp = (Hh @ rho - rho @ Hh) * (-I1)
+        else:
+            Al = inp.arr("Al", (d, d), cplx=True)
+            Ar = inp.arr("Ar", (d, d), cplx=True)
+            g = inp.real("g", lo=0)
+            ch.add_nn_dissipation(0, Al, Ar, g)
+            A = np.kron(Al, Ar)
+            Ad = _dag(A)
+            exp = g * (A @ rho @ Ad - (Ad @ A @ rho + rho @ Ad @ A) * half)
+        got = ch.nn_liouvillians[0].dot(two_site_vec(rho, d, d))
+        obs.append(Ob.eq("two-site generator", got, two_site_vec(exp, d, d)))
+        return obs
+
+
+def _i():
+    from vf.sym import S
+    return S(0, 1)
+
+
 class H5(Case):
     """GibbsTempo.get_state(): unit trace whenever the trace of the last stored state is non-zero"""
     functions = ("GibbsTempo.get_state",)
@@ -239,7 +324,7 @@ def cases(tier):
           H1("pt", 3, 1, True), H1("pt", 3, None), H1("pt", 2, 2), H1("pt", 4, 2),
           H1("mf", 3, 1), H1("mf", 3, None), H1("mf", 4, 2, True),
           H2("tempo", 2, 1), H2("pt", 2, 1), H2("tempo", 2, None),
-          H3(2, 1), H3(2, 2), H3(3, 1), H5(2), H5(3)]
+          H3(2, 1), H3(2, 2), H3(3, 1), H3c("site"), H3c("nn_ham"), H3c("nn_diss"), H3c("full3"), H5(2), H5(3)]
     if tier == "thorough":
         cs += [H1("tempo", 5, 2, True), H1("pt", 5, 2, True), H1("mf", 5, 3), H1("tempo", 2, 1, d=3), H1("pt", 2, 1, d=3),
                H2("tempo", 3, 1), H2("pt", 3, 1), H2("pt", 3, None), H2("tempo", 3, 2), H3(3, 2)]
